@@ -101,6 +101,12 @@ def _large():
 LARGE = _large()
 
 
+# reactions whose MCS imputation succeeds but leaves a non-carbon imbalance behind
+RESIDUAL = ["CCCC(CC(=O)OC)C[N+]([O-])=O>>CCCC1CNC(=O)C1", "COC(=O)CCC[N+]([O-])=O>>O=C1CCCN1",
+            "O=[N+]([O-])c1ccccc1C(=O)OC>>Nc1ccccc1C(=O)O", "CC(=O)c1ccccc1C(=O)OCC>>CC(O)c1ccccc1C(=O)O",
+            "OCc1ccccc1C(=O)OC>>O=Cc1ccccc1C(=O)O", "CC(=O)O.O>>CCC=O", "CC(=O)OC.O>>CCC(C)=O"]
+
+
 def _placeholders():
     """valid but open-shell inputs: the hand-built reactions with atomic hydrogen / oxygen
     reagents written on the reactant side (the notation the tool itself emits)"""
